@@ -28,11 +28,12 @@ Lemma nonbmp_account_covered :
   end.
 Proof. vm_compute. split; reflexivity. Qed.
 
-(* payee estimate with a code *)
+(* the payee range with a code in the header: the parser records where the payee stands (it used to be
+   estimated from the date width, so that with a code it covered '(chk 5) mont') *)
 Definition t_code := bs "2024-02-12 * (chk 5) monthly rent" ++ nl ++ bs "    a:b  1 USD" ++ nl.
-Lemma payee_estimate_wrong :
-  match hover_of t_code 0 14 with
-  | Some (HPayee, r) => covers (doc_lines t_code) r (bs "monthly rent") = false
+Lemma payee_range_recorded :
+  match hover_of t_code 0 24 with
+  | Some (HPayee, r) => range_ok (doc_lines t_code) r && covers (doc_lines t_code) r (bs "monthly rent") = true
   | _ => False
   end.
 Proof. vm_compute. reflexivity. Qed.
@@ -70,3 +71,13 @@ Proof.
   intro H. apply Bool.andb_true_iff in E1 as [A B]. apply Bool.andb_true_iff in E2 as [C D].
   apply Z.leb_le in A, C, D. apply Z.ltb_lt in B. auto.
 Qed.
+
+(* the document link of an include directive spans the whole directive, keyword included: it does not
+   cover exactly the path (recorded finding link_range_includes_keyword) *)
+Definition t_include := bs "include other.journal" ++ nl.
+Lemma link_range_includes_keyword :
+  match parse t_include with
+  | Some (j, _) => doc_links j = [mkPR 0 0 0 21] /\ covers (doc_lines t_include) (mkPR 0 0 0 21) (bs "other.journal") = false
+  | None => False
+  end.
+Proof. vm_compute. split; reflexivity. Qed.
